@@ -15,6 +15,9 @@ import Edn.Proofs.Str
 import Edn.Proofs.IdentSound
 import Edn.Proofs.Sound
 import Edn.Proofs.CharSound
+import Edn.Proofs.CompleteX
+import Edn.Proofs.SoundXCore
+import Edn.Proofs.SoundXInst
 
 namespace Edn.Properties.C03
 open Edn.Model Edn.Spec Edn.Proofs
@@ -131,5 +134,201 @@ theorem character_reader_is_the_grammar (ctx : Ctx) (body rest : Bytes) (cl : Li
 
 /-- non-vacuity: `[1"a"]` (no separator) is a form - a vector of the integer 1 and the string `a` -/
 example : (match (read Cfg.core {} "[1\"a\"]".toUTF8.toList).out with | .value _ => true | _ => false) = true := by decide +kernel
+
+/-! ## The accepted language in all four configurations
+
+`Edn.Spec.GrammarX.FormX cfg N S` generalises `Form` to every combination of the two feature flags:
+metadata `^annotation target` and namespaced maps `#:ns{…}` (Clojure flag), the character names and
+escapes of each configuration (`CharTokX cfg`), `^` as an identifier byte without the Clojure flag.
+Contents are compared through `stripM` — like `strip`, but metadata is kept (it is part of what is
+read).  Number tokens and string tokens enter through the judgements `N`, `S` with the exactness
+hypotheses `NumExact cfg N`, `StrExact cfg S`; they are discharged below for all four configurations
+(core: `CoreNum`, `RawStr`; Clojure flag: `CljNum`/`CljNumEnd`; experimental flag: `ExpNum`, text blocks),
+so that each configuration also has a statement with no abstract hypothesis left. -/
+
+/-- **The accepted language, exactly, in every configuration** (no reader registry): `edn_read`
+    returns a tree with content `a` (metadata included) **iff** the input starts with a form of
+    `FormX cfg N S` that denotes `a` and whose nesting is within the limit — for any number / string
+    judgements that are exact for the two leaf readers of that configuration. -/
+theorem reader_accepts_exactly_the_grammar (cfg : Cfg) (opts : Opts) (hreg : opts.registry = none) (N : NumJ) (S : StrJ)
+    (hN : NumExact cfg N) (hS : StrExact cfg S) (input : Bytes) (a : Val) :
+    (∃ v, (read cfg opts input).out = .value v ∧ stripM v = a) ↔
+    ∃ k tok rest, k ≤ Edn.Generated.Tables.maxNestingDepth ∧ input = tok ++ rest ∧ FormX cfg N S k a tok rest :=
+  read_iff_X cfg opts hreg N S hN hS input a
+
+/-- the exactness hypotheses are satisfiable: core numbers, Clojure numbers (either experimental
+    setting), ordinary strings without the experimental flag -/
+theorem number_judgement_core : NumExact Cfg.core coreNumJ := numExact_core
+theorem number_judgement_clj (cfg : Cfg) (hc : cfg.clj = true) : NumExact cfg (cljNumJ cfg) := numExact_clj cfg hc
+theorem string_judgement_raw (cfg : Cfg) (he : cfg.exp = false) : StrExact cfg rawStrJ := strExact_raw cfg he
+
+/-- **The accepted language with the Clojure flag, exactly** (no experimental flag, no registry; no
+    abstract hypothesis): numbers are `CljNum` tokens ended as `CljNumEnd` allows, strings raw
+    literals, characters `CharTokX`, plus metadata and namespaced maps. -/
+theorem clj_reader_accepts_exactly_the_grammar (opts : Opts) (hreg : opts.registry = none) (input : Bytes) (a : Val) :
+    (∃ v, (read ⟨true, false⟩ opts input).out = .value v ∧ stripM v = a) ↔
+    ∃ k tok rest, k ≤ Edn.Generated.Tables.maxNestingDepth ∧ input = tok ++ rest ∧
+      FormX ⟨true, false⟩ (cljNumJ ⟨true, false⟩) rawStrJ k a tok rest :=
+  read_iff_X ⟨true, false⟩ opts hreg _ _ (numExact_clj _ rfl) (strExact_raw _ rfl) input a
+
+/-- both flags: numbers are discharged (`CljNum` with `_` separators), for any exact string /
+    text-block judgement (instantiated in `clj_exp_reader_accepts_exactly_the_grammar_inst`) -/
+theorem clj_exp_reader_accepts_exactly_the_grammar (opts : Opts) (hreg : opts.registry = none) (S : StrJ)
+    (hS : StrExact ⟨true, true⟩ S) (input : Bytes) (a : Val) :
+    (∃ v, (read ⟨true, true⟩ opts input).out = .value v ∧ stripM v = a) ↔
+    ∃ k tok rest, k ≤ Edn.Generated.Tables.maxNestingDepth ∧ input = tok ++ rest ∧
+      FormX ⟨true, true⟩ (cljNumJ ⟨true, true⟩) S k a tok rest :=
+  read_iff_X ⟨true, true⟩ opts hreg _ S (numExact_clj _ rfl) hS input a
+
+/-- experimental flag only, for any exact leaf judgements (instantiated in
+    `exp_reader_accepts_exactly_the_grammar_inst`) -/
+theorem exp_reader_accepts_exactly_the_grammar (opts : Opts) (hreg : opts.registry = none) (N : NumJ) (S : StrJ)
+    (hN : NumExact ⟨false, true⟩ N) (hS : StrExact ⟨false, true⟩ S) (input : Bytes) (a : Val) :
+    (∃ v, (read ⟨false, true⟩ opts input).out = .value v ∧ stripM v = a) ↔
+    ∃ k tok rest, k ≤ Edn.Generated.Tables.maxNestingDepth ∧ input = tok ++ rest ∧ FormX ⟨false, true⟩ N S k a tok rest :=
+  read_iff_X ⟨false, true⟩ opts hreg N S hN hS input a
+
+/-- **the new grammar specialises to the old one**: with both flags off `FormX` is `Form` -/
+theorem grammarX_core_is_grammar (k : Nat) (a : Val) (tok rest : Bytes) :
+    FormX Cfg.core coreNumJ rawStrJ k a tok rest ↔ Form k a tok rest :=
+  formX_core_iff_form k a tok rest
+
+/-- … so the core theorem is an instance, with the stronger content comparison: a tree read in the
+    core configuration carries no metadata anywhere -/
+theorem core_reader_accepts_exactly_the_grammar_with_metadata (opts : Opts) (hreg : opts.registry = none) (input : Bytes) (a : Val) :
+    (∃ v, (read Cfg.core opts input).out = .value v ∧ stripM v = a) ↔
+    ∃ k tok rest, k ≤ Edn.Generated.Tables.maxNestingDepth ∧ input = tok ++ rest ∧ Form k a tok rest := by
+  rw [read_iff_X Cfg.core opts hreg _ _ numExact_core (strExact_raw _ rfl) input a]
+  constructor
+  · rintro ⟨k, tok, rest, h1, h2, h3⟩
+    exact ⟨k, tok, rest, h1, h2, (formX_core_iff_form k a tok rest).mp h3⟩
+  · rintro ⟨k, tok, rest, h1, h2, h3⟩
+    exact ⟨k, tok, rest, h1, h2, (formX_core_iff_form k a tok rest).mpr h3⟩
+
+/-- soundness in every context (any fuel, depth, discard mode, call log): a returned value means a
+    form of the grammar was consumed, exactly its bytes, nothing was logged, and the nesting fits -/
+theorem value_reader_sound (cfg : Cfg) (opts : Opts) (hreg : opts.registry = none) (N : NumJ) (S : StrJ)
+    (hN : NumExact cfg N) (hS : StrExact cfg S) (f d : Nat) (dm : Bool) (st st' : St) (v : Val)
+    (h : readValue { cfg := cfg, opts := opts } f d dm st = .ok v st') (hd : d ≤ Edn.Generated.Tables.maxNestingDepth) :
+    ∃ k tok, d + k ≤ Edn.Generated.Tables.maxNestingDepth ∧ st.rest = tok ++ st'.rest ∧ st'.calls = st.calls ∧
+      FormX cfg N S k (stripM v) tok st'.rest :=
+  readValue_sound_X cfg opts hreg N S hN hS f d dm st st' v h hd
+
+/-- … and conversely every form that fits is read, in every context, as the value it denotes -/
+theorem form_is_read_in_context (cfg : Cfg) (opts : Opts) (hreg : opts.registry = none) (N : NumJ) (S : StrJ)
+    (hN : NumExact cfg N) (hS : StrExact cfg S) (k : Nat) (a : Val) (tok rest : Bytes)
+    (h : FormX cfg N S k a tok rest) (d : Nat) (hd : d + k ≤ Edn.Generated.Tables.maxNestingDepth) (dm : Bool) (cl : List Call) (f : Nat)
+    (hf : 2 * (tok.length + rest.length) + 2 ≤ f) :
+    ∃ v, readValue { cfg := cfg, opts := opts } f d dm { rest := tok ++ rest, calls := cl }
+          = .ok v { rest := rest, calls := cl } ∧ stripM v = a :=
+  formX_is_read cfg opts hreg N S hN hS k a tok rest h d hd dm cl f hf
+
+/-- the metadata merge of the grammar (`attachMetaC`, with the specification's equality `Eqv`) is
+    what `edn_read_metadata` computes on values with valid caches -/
+theorem metadata_merge_on_contents (cfg : Cfg) (m form : Val) (nks nvs : List Val) (hn : Elems cfg nks)
+    (ho : ∀ h md ks vs, form.md = some (.map h md ks vs) → Elems cfg ks) :
+    stripM (attachMeta cfg m form nks nvs) = attachMetaC cfg (stripM form) (stripML nks) (stripML nvs) :=
+  SndX.stripM_attachMeta cfg m form nks nvs hn ho
+
+/-- accepted with the Clojure flag: `^:a [1]` is the vector `[1]` carrying the metadata `{:a true}` … -/
+example : (match (read ⟨true, false⟩ {} "^:a [1]".toUTF8.toList).out with
+    | .value (.vec _ (some (.map _ none [.kw _ none nm] [.bool _ true])) [.int _ 1]) => nm == "a".toUTF8.toList
+    | _ => false) = true := by decide +kernel
+
+/-- … `#:p{:a 1 :_/b 2 :q/c 3}` the map `{:p/a 1, :b 2, :q/c 3}` … -/
+example : (match (read ⟨true, false⟩ {} "#:p{:a 1 :_/b 2 :q/c 3}".toUTF8.toList).out with
+    | .value (.map _ none [.kw _ (some p) a, .kw _ none b, .kw _ (some q) c] [.int _ 1, .int _ 2, .int _ 3]) =>
+      p == "p".toUTF8.toList && a == "a".toUTF8.toList && b == "b".toUTF8.toList && q == "q".toUTF8.toList &&
+        c == "c".toUTF8.toList
+    | _ => false) = true := by decide +kernel
+
+example : (match (read ⟨true, false⟩ {} "#:p{:a 1}".toUTF8.toList).out with
+    | .value (.map _ none [.kw _ (some p) a] [.int _ 1]) => p == "p".toUTF8.toList && a == "a".toUTF8.toList
+    | _ => false) = true := by decide +kernel
+
+/-- … and `[1/2 0x1F]` the vector of the ratio 1/2 and the integer 31 -/
+example : (match (read ⟨true, false⟩ {} "[1/2 0x1F]".toUTF8.toList).out with
+    | .value (.vec _ none [.ratio _ 1 2, .int _ 31]) => true
+    | _ => false) = true := by decide +kernel
+
+/-- non-vacuity of the right-hand side: by the theorem, the grammar has a derivation for `^:a [1]` -/
+example : ∃ a k tok rest, k ≤ Edn.Generated.Tables.maxNestingDepth ∧ "^:a [1]".toUTF8.toList = tok ++ rest ∧
+    FormX ⟨true, false⟩ (cljNumJ ⟨true, false⟩) rawStrJ k a tok rest := by
+  have hb : (match (read ⟨true, false⟩ {} "^:a [1]".toUTF8.toList).out with | .value _ => true | _ => false) = true := by
+    decide +kernel
+  cases ho : (read ⟨true, false⟩ {} "^:a [1]".toUTF8.toList).out with
+  | value v =>
+    obtain ⟨k, tok, rest, h⟩ := (clj_reader_accepts_exactly_the_grammar {} rfl _ (stripM v)).mp ⟨v, ho, rfl⟩
+    exact ⟨stripM v, k, tok, rest, h⟩
+  | eofValue => rw [ho] at hb; cases hb
+  | error c s e => rw [ho] at hb; cases hb
+  | fuelOut => rw [ho] at hb; cases hb
+
+/-- what the model (checked against the library by the correspondence runs) says about the corners:
+    qualification happens before the duplicate check and drops a key's own metadata; blanks and
+    comments may stand between `#:ns` and `{`; metadata is invisible to the duplicate check; without
+    the Clojure flag `^` is an identifier byte; inside a tag it always is -/
+example : (match (read ⟨true, false⟩ {} "#:a{:x 1 :a/x 2}".toUTF8.toList).out with
+    | .error .duplicateKey _ _ => true | _ => false) = true := by decide +kernel
+example : (match (read ⟨true, false⟩ {} "#:p{^:m x 1}".toUTF8.toList).out with
+    | .value (.map _ none [.sym _ none (some _) _] [.int _ 1]) => true | _ => false) = true := by decide +kernel
+example : (match (read ⟨true, false⟩ {} "#:a ;c\n,{:x 1}".toUTF8.toList).out with
+    | .value (.map ..) => true | _ => false) = true := by decide +kernel
+example : (match (read ⟨true, false⟩ {} "#{x ^:a x}".toUTF8.toList).out with
+    | .error .duplicateElement _ _ => true | _ => false) = true := by decide +kernel
+example : (match (read ⟨false, true⟩ {} "^:a [1]".toUTF8.toList).out with
+    | .value (.sym _ none none nm) => nm == "^:a".toUTF8.toList | _ => false) = true := by decide +kernel
+example : (match (read ⟨true, false⟩ {} "#foo^x [1]".toUTF8.toList).out with
+    | .value (.tagged _ none tag (.vec ..)) => tag == "foo^x".toUTF8.toList | _ => false) = true := by decide +kernel
+
+/-- metadata markers count towards the nesting limit (`FormX.withMeta` is one level, like a
+    collection, a tag or a discard): 100 markers in front of a symbol are accepted, 101 are not -/
+example : (match (read ⟨true, false⟩ {} ((List.replicate 100 "^:a ".toUTF8.toList).flatten ++ "x".toUTF8.toList)).out with
+    | .value (.sym ..) => true | _ => false) = true := by decide +kernel
+example : (match (read ⟨true, false⟩ {} ((List.replicate 101 "^:a ".toUTF8.toList).flatten ++ "x".toUTF8.toList)).out with
+    | .error .invalidSyntax _ _ => true | _ => false) = true := by decide +kernel
+
+/-! ### the two configurations with the experimental flag, fully instantiated
+
+The leaf theorems of the experimental flag (`readNumber_exp_iff`: `ExpNum` tokens; the text-block
+reader: `readString_textblock_sound` / `readTextBlockBody_complete`) discharge the remaining
+hypotheses: numbers are `ExpNum` (experimental flag alone) or `CljNum` with separators (both flags);
+a string token is an ordinary literal that does not start with `"""⏎`, or a text block (`expStrJ`). -/
+
+theorem number_judgement_exp : NumExact ⟨false, true⟩ expNumJ := numExact_exp
+theorem string_judgement_exp (cfg : Cfg) (he : cfg.exp = true) : StrExact cfg expStrJ := strExact_exp cfg he
+
+/-- **The accepted language with the experimental flag alone, exactly** (no abstract hypothesis) -/
+theorem exp_reader_accepts_exactly_the_grammar_inst (opts : Opts) (hreg : opts.registry = none) (input : Bytes) (a : Val) :
+    (∃ v, (read ⟨false, true⟩ opts input).out = .value v ∧ stripM v = a) ↔
+    ∃ k tok rest, k ≤ Edn.Generated.Tables.maxNestingDepth ∧ input = tok ++ rest ∧
+      FormX ⟨false, true⟩ expNumJ expStrJ k a tok rest :=
+  exp_reader_accepts_exactly_the_grammar opts hreg _ _ numExact_exp (strExact_exp _ rfl) input a
+
+/-- **The accepted language with both flags, exactly** (no abstract hypothesis) -/
+theorem clj_exp_reader_accepts_exactly_the_grammar_inst (opts : Opts) (hreg : opts.registry = none) (input : Bytes) (a : Val) :
+    (∃ v, (read ⟨true, true⟩ opts input).out = .value v ∧ stripM v = a) ↔
+    ∃ k tok rest, k ≤ Edn.Generated.Tables.maxNestingDepth ∧ input = tok ++ rest ∧
+      FormX ⟨true, true⟩ (cljNumJ ⟨true, true⟩) expStrJ k a tok rest :=
+  clj_exp_reader_accepts_exactly_the_grammar opts hreg _ (strExact_exp _ rfl) input a
+
+/-- accepted with the experimental flag: `[1_000 """⏎  a⏎  """]` is the vector of 1000 and the string `a⏎` … -/
+example : (match (read ⟨false, true⟩ {} "[1_000 \"\"\"\n  a\n  \"\"\"]".toUTF8.toList).out with
+    | .value (.vec _ none [.int _ 1000, .str _ t false]) => t == "a\n".toUTF8.toList
+    | _ => false) = true := by decide +kernel
+
+/-- … with both flags `^{:k 0x1_F} #:n{:a \u1F600}` is the map `{:n/a 😀}` carrying the metadata `{:k 31}` … -/
+example : (match (read ⟨true, true⟩ {} "^{:k 0x1_F} #:n{:a \\u1F600}".toUTF8.toList).out with
+    | .value (.map _ (some (.map _ none [.kw ..] [.int _ 31])) [.kw _ (some _) _] [.char _ 0x1F600]) => true
+    | _ => false) = true := by decide +kernel
+
+/-- … and the side condition of `expStrJ` is needed: `""` directly followed by `"⏎` is two strings
+    without the experimental flag and an unterminated text block with it -/
+example : (match (read ⟨false, false⟩ {} "[\"\"\"\n\"]".toUTF8.toList).out with
+    | .value (.vec _ none [.str _ a _, .str _ b _]) => a == [] && b == [0x0A]
+    | _ => false) = true := by decide +kernel
+example : (match (read ⟨false, true⟩ {} "[\"\"\"\n\"]".toUTF8.toList).out with
+    | .error .invalidString _ _ => true
+    | _ => false) = true := by decide +kernel
 
 end Edn.Properties.C03
